@@ -1,0 +1,63 @@
+//go:build verif
+
+package jen
+
+import (
+	"encoding/json"
+	"os"
+	"sort"
+	"sync"
+)
+
+// When VERIF_TRACE_FILE is set, the package's own tests emit one JSON line per
+// register / dictkey / rendered hook event, with the File's import table as it is
+// at that moment, so that every step can be validated against the specification.
+func init() {
+	name := os.Getenv("VERIF_TRACE_FILE")
+	if name == "" {
+		return
+	}
+	out, err := os.OpenFile(name, os.O_CREATE|os.O_WRONLY|os.O_APPEND, 0644)
+	if err != nil {
+		panic(err)
+	}
+	type def struct {
+		Path  string `json:"path"`
+		Name  string `json:"name"`
+		Alias bool   `json:"alias"`
+	}
+	type rec struct {
+		Ev      string `json:"ev"`
+		File    int    `json:"file"`
+		Seq     int    `json:"seq"`
+		Arg     string `json:"arg"`
+		Local   string `json:"local"`
+		Prefix  string `json:"prefix"`
+		Imports []def  `json:"imports"`
+		Hints   []def  `json:"hints"`
+	}
+	var mu sync.Mutex
+	ids := map[*File]int{}
+	seq := 0
+	table := func(m map[string][2]string) []def {
+		ds := []def{}
+		for p, d := range m {
+			ds = append(ds, def{p, d[0], d[1] != ""})
+		}
+		sort.Slice(ds, func(i, j int) bool { return ds[i].Path < ds[j].Path })
+		return ds
+	}
+	enc := json.NewEncoder(out)
+	VerifHook = func(point string, f *File, arg string) {
+		mu.Lock()
+		defer mu.Unlock()
+		id, ok := ids[f]
+		if !ok {
+			id = len(ids) + 1
+			ids[f] = id
+		}
+		seq++
+		_, path, prefix, imports, hints := VerifState(f)
+		enc.Encode(rec{point, id, seq, arg, path, prefix, table(imports), table(hints)})
+	}
+}
